@@ -204,6 +204,8 @@ class Context:
         self.evals += int(res.get("evals", 1))
         canon = res.get("canon")
         key = state_key if state_key is not None else canon
+        if key is None:
+            key = ("case", json.dumps(jsonable(case), sort_keys=True))   # a case that raised has no canonical state of its own
         new = False
         if key is not None:
             k = digest(key)
